@@ -7,9 +7,11 @@ package main
 import (
 	"bytes"
 	"crypto/sha256"
+	"fmt"
 	"math"
 	"os"
 	"path/filepath"
+	"regexp"
 	"strings"
 
 	"github.com/pdfcpu/pdfcpu/pkg/api"
@@ -58,6 +60,21 @@ func tri(d int) string {
 	}
 	return "U"
 }
+
+func sfKey(sf string) string {
+	switch sf {
+	case "ETSI.RFC3161":
+		return "rfc3161"
+	case "ETSI.CAdES.detached":
+		return "cades"
+	case "adbe.pkcs7.detached":
+		return "pkcs7"
+	}
+	return "other"
+}
+
+var subFilters = []string{"ETSI.RFC3161", "ETSI.CAdES.detached", "adbe.pkcs7.detached", "adbe.pkcs7.sha1", ""}
+var sigTypes = []string{"DocTimeStamp", "Sig", ""}
 
 func contentsArg(c *string) string {
 	if c == nil {
@@ -325,11 +342,21 @@ func pureSignedData() {
 		if r.Rand.Intn(10) == 0 {
 			fsize = []int64{-1, 0, fsize + 1, fsize - 1}[r.Rand.Intn(4)]
 		}
+		// the classification inputs are varied independently: the field type (dts), the sig dict's
+		// /Type and /SubFilter (visible to both sites through sigDict / result.Details)
+		sf := subFilters[r.Rand.Intn(len(subFilters))]
+		if sf != "" {
+			d["SubFilter"] = types.Name(sf)
+		}
+		if tn := sigTypes[r.Rand.Intn(len(sigTypes))]; tn != "" {
+			d["Type"] = types.Name(tn)
+		}
 		guard("boundary", arr, func() {
 			ctx := &model.Context{Read: &model.ReadContext{FileSize: fsize}}
 			res := &model.SignatureValidationResult{}
+			res.Details.SubFilter = sf
 			ok := pdfcpu.VerifC28RecordSignedRevisionBoundaryEvidence(d, ctx, incr, dts, res)
-			r.Case("boundaryOK", []string{vh.Int(fsize), ints64(arr), vh.Int(int64(incr)), vh.Bool(dts)}, vh.Bool(ok))
+			r.Case("boundaryOK", []string{vh.Int(fsize), ints64(arr), vh.Int(int64(incr)), vh.Bool(dts), sfKey(sf)}, vh.Bool(ok))
 			for _, dm := range []int{model.Unknown, model.False, model.True} {
 				st := model.SigTypeForm
 				if dts {
@@ -338,8 +365,11 @@ func pureSignedData() {
 					st = []int{model.SigTypePage, model.SigTypeUR}[r.Rand.Intn(2)]
 				}
 				res := &model.SignatureValidationResult{DocModified: dm}
+				res.Details.SubFilter = sf
+				res.Signature.Type = st
 				pdfcpu.VerifC28ApplyHistoricalRevisionReporting(incr, st, res)
-				r.Case("applyHistorical", []string{vh.Int(int64(incr)), vh.Bool(dts), tri(dm)}, tri(res.DocModified))
+				r.Case("applyHistorical", []string{vh.Int(int64(incr)), vh.Bool(dts), sfKey(sf), tri(dm)}, tri(res.DocModified))
+				r.Count("class:historical dts=" + vh.Bool(dts) + " sf=" + sfKey(sf))
 			}
 		})
 	}
@@ -439,7 +469,7 @@ func checkDoc(label string, f []byte, shift int, signedDigest *[32]byte, kOK boo
 				verdict = "F"
 			}
 			r.Case("docModified", []string{verdict, vh.Int(int64(len(f))), vh.Hex(f), ints64(si.Arr), contentsArg(si.Contents),
-				vh.Int(int64(si.Increment)), vh.Bool(si.DTS)}, tri(dm))
+				vh.Int(int64(si.Increment)), vh.Bool(si.DTS), sfKey(si.SubFilter)}, tri(dm))
 		}
 	}
 }
@@ -527,6 +557,110 @@ func e2eDTS() {
 	checkDoc("dts-sample+later-increment", synth.Increment(b, "later"), 0, &dg, false)
 }
 
+// ---------- increments that SHADOW signature dictionaries / fields ----------
+var (
+	reType = regexp.MustCompile(`/Type\s*/\w+`)
+	reSub  = regexp.MustCompile(`/SubFilter\s*/[\w.]+`)
+	reV    = regexp.MustCompile(`/V\s+\d+\s+\d+\s+R`)
+)
+
+func reshape(dict, typ, sub string) string {
+	d := reType.ReplaceAllString(dict, "")
+	if typ != "" {
+		d = strings.Replace(d, "<<", "<< /Type /"+typ+" ", 1)
+	}
+	if reSub.MatchString(d) {
+		d = reSub.ReplaceAllString(d, "/SubFilter /"+sub)
+	} else {
+		d = strings.Replace(d, "<<", "<< /SubFilter /"+sub+" ", 1)
+	}
+	return d
+}
+
+// shadow appends one incremental update re-defining the signature dictionary (same /ByteRange and
+// /Contents; only /Type and /SubFilter change) and, depending on pos, the field:
+//   dict-only   : the field stays in its historical revision
+//   with-field  : the field object is re-stated too (the signature now sits in the newest revision)
+//   indirection : the field is re-stated with /V pointing to a NEW object holding the reshaped dict
+func shadow(b []byte, si synth.SigInfo, typ, sub, pos string) ([]byte, bool) {
+	dict := synth.ObjBody(b, si.DictObjNr)
+	field := synth.ObjBody(b, si.ObjNr)
+	if dict == "" || !strings.Contains(dict, "/ByteRange") {
+		return nil, false
+	}
+	objs := map[int]string{}
+	nd := reshape(dict, typ, sub)
+	switch pos {
+	case "dict-only":
+		objs[si.DictObjNr] = nd
+	case "with-field":
+		if field == "" || si.ObjNr == si.DictObjNr {
+			return nil, false
+		}
+		objs[si.DictObjNr] = nd
+		objs[si.ObjNr] = field
+	case "indirection":
+		if field == "" || !reV.MatchString(field) {
+			return nil, false
+		}
+		fresh := 900000 + r.Rand.Intn(1000)
+		objs[fresh] = nd
+		objs[si.ObjNr] = reV.ReplaceAllString(field, fmt.Sprintf("/V %d 0 R", fresh))
+	}
+	out, err := synth.IncrementObjs(b, objs)
+	return out, err == nil
+}
+
+func e2eShadow(s *synth.Signer) {
+	type src struct {
+		label string
+		b     []byte
+	}
+	var srcs []src
+	repo := os.Getenv("VERIF_REPO")
+	if repo == "" {
+		repo = "/repo"
+	}
+	for _, p := range []string{"ETSI.CAdES.detached/testPAdES_BLTA.pdf", "ETSI.CAdES.detached/testPAdES_BB.pdf", "adbe.pkcs7.detached/sample2.pdf"} {
+		if b, err := os.ReadFile(filepath.Join(repo, "pkg/samples/signatures", p)); err == nil {
+			srcs = append(srcs, src{filepath.Base(p), b})
+		}
+	}
+	for i := 0; i < r.Pick(1, 4); i++ {
+		if d, err := synth.Build(s, synth.Options{Payload: []byte("BT ET"), ExtraObjs: r.Rand.Intn(2)}); err == nil {
+			srcs = append(srcs, src{"synth", d.Bytes})
+		}
+	}
+	for _, sc := range srcs {
+		infos, err := synth.Validate(sc.b, 0)
+		if err != nil || infos == nil {
+			r.Count("shadow:source-unusable " + sc.label)
+			continue
+		}
+		for _, si := range infos {
+			if si.DictObjNr == 0 || si.Arr == nil {
+				continue
+			}
+			for _, typ := range sigTypes {
+				for _, sub := range []string{"ETSI.RFC3161", "ETSI.CAdES.detached", "adbe.pkcs7.detached"} {
+					for _, pos := range []string{"dict-only", "with-field", "indirection"} {
+						f, ok := shadow(sc.b, si, typ, sub, pos)
+						if !ok {
+							r.Count("shadow:not-applicable " + sc.label)
+							continue
+						}
+						label := fmt.Sprintf("shadow %s obj%d type=%s sf=%s %s", sc.label, si.DictObjNr, typ, sub, pos)
+						r.Count("shadow:" + pos + " type=" + typ + " sf=" + sfKey(sub))
+						for _, shift := range []int{0, 1} {
+							checkDoc(label, f, shift, nil, false)
+						}
+					}
+				}
+			}
+		}
+	}
+}
+
 func main() {
 	r = vh.Start("C28")
 	defer r.Finish()
@@ -543,4 +677,5 @@ func main() {
 	}
 	e2eSynth(s)
 	e2eDTS()
+	e2eShadow(s)
 }
